@@ -59,16 +59,18 @@ def replay_state(chk, st, cplx, table):
                or cmp_scalar(e2, expRho, name='rho') or cmp_vec(ref2, expK, name='reflection'))
         if bad:
             chk.violation('C13:_arburg2:%s:values' % mode, '_arburg2(x=%s, %d): %s' % (xa.tolist(), q, bad), {'x': xa, 'order': q})
-    ok, obj = call_guard(lambda: pburg(xa.copy(), q, NFFT=16))
-    if ok:
-        ok, err = call_guard(lambda: obj.psd)
-    if not ok:
-        chk.violation('C13:pburg:%s:raises' % mode, 'pburg raises', {'x': xa, 'order': q})
-    else:
-        bad = (cmp_vec(obj.ar, expA, name='pburg.ar') or cmp_scalar(obj.rho, expRho, name='pburg.rho')
-               or cmp_vec(obj.reflection, expK, name='pburg.reflection'))
-        if bad:
-            chk.violation('C13:pburg:%s:values' % mode, 'pburg(x=%s, %d): %s' % (xa.tolist(), q, bad), {'x': xa, 'order': q})
+    for kw in ({'NFFT': 16}, {'NFFT': 9, 'sampling': 4.0}, {'NFFT': 16, 'sampling': 0.5, 'scale_by_freq': True}):
+        ok, obj = call_guard(lambda: pburg(xa.copy(), q, **kw))
+        if ok:
+            ok, err = call_guard(lambda: obj.psd)
+        if not ok:
+            chk.violation('C13:pburg:%s:raises' % mode, 'pburg raises', {'x': xa, 'order': q, 'kw': kw})
+        else:
+            bad = (cmp_vec(obj.ar, expA, name='pburg.ar') or cmp_scalar(obj.rho, expRho, name='pburg.rho')
+                   or cmp_vec(obj.reflection, expK, name='pburg.reflection'))
+            if bad:
+                chk.violation('C13:pburg:%s:values%s' % (mode, ':sampling' if 'sampling' in kw else ''),
+                              'pburg(x=%s, %d, %s): %s' % (xa.tolist(), q, kw, bad), {'x': xa, 'order': q, 'kw': kw})
     chk.replayed += 1
     chk.count('burg-' + mode, 'replayed')
     if q == 2 and len(st['x']) == 5:
@@ -154,6 +156,14 @@ def obs_events(chk):
         if cplx:
             x = x + 1j * (rng.randn(N) if kind != 1 else np.sin(0.6 * t) + 0.1 * rng.randn(N))
         ev = {'ev': 'burg', 'N': N, 'p': p, 'cplx': cplx, 'kind': kind}
+        # integer-valued data: the same samples stored in a narrow integer dtype must give the same model
+        if kind == 2 and not cplx:
+            xi = np.round(x * 400).astype(np.int16)
+            oka, ra = call_guard(arburg, xi.copy(), p)
+            okb, rb = call_guard(arburg, xi.astype(float), p)
+            ev['int_dev'] = obs.q(max(np.max(np.abs(ra[0] - rb[0])), abs(ra[1] - rb[1]) / max(abs(rb[1]), 1e-300))) if oka and okb else (obs.QCAP if okb else 0)
+        else:
+            ev['int_dev'] = 0
         ok, res = call_guard(arburg, x.copy(), p)
         ev['raised'] = not ok
         if ok:
